@@ -33,6 +33,7 @@ const ZERO: u8 = 0;
 const ONE: u8 = 1;
 const IS: u8 = 12; // RegId::IS
 const SP: u8 = 5;
+const FP: u8 = 6;
 const HP: u8 = 7;
 const CGAS: u8 = 10;
 const BAL: u8 = 11;
@@ -84,6 +85,15 @@ pub struct Weights {
     pub hostile: u32,
     /// per-mille probability that a random raw word is inserted
     pub garbage: u32,
+    /// per-mille probability that a contract's TR names the contract itself (`$fp`) as
+    /// the destination (C27; 0 = never, draws nothing)
+    pub self_transfer: u32,
+    /// per-mille probability per program that one receipt flood (a counted loop around a
+    /// single LOG/LOGD with `flood_n` iterations) is placed between two top-level snippets
+    /// (C28; 0 = never, draws nothing)
+    pub flood: u32,
+    /// trip count of the flood loop (< 2^18)
+    pub flood_n: u32,
 }
 
 impl Default for Weights {
@@ -104,6 +114,9 @@ impl Default for Weights {
             wide: 2,
             hostile: 40,
             garbage: 3,
+            self_transfer: 0,
+            flood: 0,
+            flood_n: 0,
         }
     }
 }
@@ -707,6 +720,11 @@ impl<'a> Gen<'a> {
         }
         match pick {
             0 => {
+                if internal && self.w.self_transfer > 0 && self.rng.below(1000) < self.w.self_transfer as u64 {
+                    // transfer to the executing contract itself: its id is at `$fp`
+                    self.emit(op::tr(FP, a, ap));
+                    return;
+                }
                 if !self.contract_ptr(p) && !self.hostile() {
                     return;
                 }
@@ -1119,6 +1137,34 @@ impl<'a> Gen<'a> {
         }
     }
 
+    /// receipt flood: `flood_n` iterations of a loop whose body is one receipt-producing
+    /// instruction (only ever placed at top level: the loop counter is not nested)
+    fn flood(&mut self) {
+        let n = self.w.flood_n.clamp(1, 0x3ffff);
+        let (a, b, c, d) = (self.val(), self.val(), self.val(), self.val());
+        let (p, l) = (16u8, 17u8);
+        let kind = self.rng.below(4);
+        match kind {
+            2 => {
+                self.emit(op::move_(p, R_DATA));
+                self.emit(op::movi(l, self.rng.below(24) as u32));
+            }
+            3 => {
+                self.ptr_loc(p, self.rng.below(512) as u32);
+                self.emit(op::movi(l, 0));
+            }
+            _ => {}
+        }
+        self.emit(op::movi(R_CNT, n));
+        match kind {
+            0 | 1 => self.emit(op::log(a, b, c, d)),
+            _ => self.emit(op::logd(a, b, p, l)),
+        }
+        self.emit(op::subi(R_CNT, R_CNT, 1));
+        // back to the receipt instruction, two instructions before this one
+        self.emit(op::jnzb(R_CNT, ZERO, 1));
+    }
+
     fn body(&mut self, n: usize, depth: u32, in_sub: bool) {
         for _ in 0..n {
             self.snippet(depth, in_sub);
@@ -1187,7 +1233,14 @@ impl<'a> Gen<'a> {
 pub fn generate(rng: &mut Rng, env: &Env, mode: Mode, weights: Weights, n: usize) -> Program {
     let mut g = Gen::new(rng, env, mode, weights);
     g.prelude();
-    g.body(n, 0, false);
+    if g.w.flood > 0 && g.rng.below(1000) < g.w.flood as u64 {
+        let k = g.rng.usize_below(n + 1);
+        g.body(k, 0, false);
+        g.flood();
+        g.body(n - k, 0, false);
+    } else {
+        g.body(n, 0, false);
+    }
     g.ending();
     // safety net after the ending so that falling through still terminates
     g.emit(op::ret(ONE));
